@@ -104,10 +104,11 @@ def _headers(func):
             if isinstance(n, ast.Expr) and isinstance(n.value, ast.Constant):
                 continue
             yield n
-        elif isinstance(n, (ast.If, ast.While)):
-            yield n.test
-        elif isinstance(n, ast.IfExp):
-            yield n.test
+        elif isinstance(n, (ast.If, ast.While, ast.IfExp)):
+            # the leaves of the test: `if a and b:` / `if a: if b:` /
+            # `if not (a and b): ... else:` give the same contexts
+            for leaf in _test_leaves(n.test):
+                yield leaf
         elif isinstance(n, (ast.For, ast.AsyncFor)):
             yield ast.Tuple(elts=[n.target, n.iter], ctx=ast.Load())
         elif isinstance(n, (ast.With, ast.AsyncWith)):
@@ -119,6 +120,18 @@ def _headers(func):
             yield ast.Tuple(elts=[n.target, n.iter], ctx=ast.Load())
         elif isinstance(n, ast.ExceptHandler) and n.name:
             yield ast.Name(id=n.name, ctx=ast.Store())
+
+
+def _test_leaves(e):
+    if isinstance(e, ast.BoolOp):
+        for v in e.values:
+            for x in _test_leaves(v):
+                yield x
+    elif isinstance(e, ast.UnaryOp) and isinstance(e.op, ast.Not):
+        for x in _test_leaves(e.operand):
+            yield x
+    else:
+        yield e
 
 
 def _is_logging(n):
@@ -162,8 +175,25 @@ def _sim(a, b):
     return inter / union if union else 0.0
 
 
+def first_occurrence_order(func):
+    """local names in the order in which they first appear in the source"""
+    seen = {}
+    for n in ast.walk(func):
+        if isinstance(n, ast.Name):
+            k, pos = n.id, (n.lineno, n.col_offset)
+        elif isinstance(n, ast.arg):
+            k, pos = n.arg, (n.lineno, n.col_offset)
+        else:
+            continue
+        if k not in seen or pos < seen[k]:
+            seen[k] = pos
+    return [k for k, _ in sorted(seen.items(), key=lambda kv: kv[1])]
+
+
 def mapping(func, ref_sigs, threshold=0.34):
     """{new name: vanished reference name}"""
+    order_ref = ref_sigs.get("__order__") or []
+    ref_sigs = {k: v for k, v in ref_sigs.items() if not k.startswith("__")}
     cur = signatures(func)
     cur_only = set(cur) - set(ref_sigs)
     ref_only = set(ref_sigs) - set(cur)
@@ -191,10 +221,35 @@ def mapping(func, ref_sigs, threshold=0.34):
         taken.add(r)
     # exactly one new and one vanished name left: the rename (any injective
     # choice is a sound alpha-conversion)
+    # names that play exactly the same role (identical contexts, e.g. two
+    # flags set and tested alike) cannot be told apart by role: they are paired
+    # in the order of their first appearance
+    rest_c = sorted(cur_only - set(out))
+    rest_r = sorted(ref_only - taken)
+    if rest_c and rest_r and order_ref:
+        order_cur = first_occurrence_order(func)
+        groups = {}
+        for c in rest_c:
+            groups.setdefault(frozenset(cur[c].items()), ([], []))[0].append(c)
+        for r in rest_r:
+            groups.setdefault(frozenset(collections.Counter(
+                ref_sigs[r]).items()), ([], []))[1].append(r)
+        for key, (cs, rs) in groups.items():
+            if len(cs) == len(rs) >= 2 and key and \
+                    all(c in order_cur for c in cs) and \
+                    all(r in order_ref for r in rs):
+                cs = sorted(cs, key=order_cur.index)
+                rs = sorted(rs, key=order_ref.index)
+                for c, r in zip(cs, rs):
+                    out[c] = r
+                    taken.add(r)
     rest_c = sorted(cur_only - set(out))
     rest_r = sorted(ref_only - taken)
     if len(rest_c) == 1 and len(rest_r) == 1 and \
-            len(set(ref_sigs) - set(cur)) - len(taken) == 1:
+            len(set(ref_sigs) - set(cur)) - len(taken) == 1 and \
+            _sim(cur[rest_c[0]], collections.Counter(ref_sigs[rest_r[0]])) > 0:
+        # (some shared role: a reference name can also have vanished because
+        # it was a temporary that has been written in place)
         out[rest_c[0]] = rest_r[0]
     return out
 
@@ -228,7 +283,8 @@ def normaliser_digest():
     the snapshot must have been taken with the same normaliser."""
     import hashlib
     h = hashlib.sha256()
-    for f in ("canon.py", "desugar.py", "alpha.py"):
+    for f in ("canon.py", "desugar.py", "alpha.py", "callform.py",
+              "foldtemps.py"):
         with open(os.path.join(HERE, f), "rb") as fh:
             h.update(fh.read())
     return h.hexdigest()[:16]
@@ -261,7 +317,8 @@ def normalise(qual, func):
     if not ref or not isinstance(ref, dict):
         return {}
     cur = local_names(func)
-    if not (cur - set(ref)) or not (set(ref) - cur):
+    names = {k for k in ref if not k.startswith("__")}
+    if not (cur - names) or not (names - cur):
         return {}            # nothing new, or nothing vanished: no rename
     mp = mapping(func, ref)
     # parameters that callers may pass by keyword keep their name unless the
